@@ -56,7 +56,7 @@ def check_list(run, E):
                 res = p.value
                 comb = 'rsatoolbox.rdm.combine.from_partials' if desc_case == 'given' else 'rsatoolbox.rdm.rdms.concat'
                 a = peel(res, comb)
-                ck.ensure(f'post/combined-by-{comb.rsplit(".", 1)[-1]}', z3.BoolVal(a is not None))
+                ck.ensure(f'post/combined-by-{comb.rsplit(".", 1)[-1]}', z3.BoolVal(a is not None), structure=True)
                 if a is None:
                     return
                 lst = a[0]
